@@ -479,31 +479,71 @@ func checkLiteralEscapes(c *Ctx) {
 				continue
 			}
 			nActions++
-			resolved := false
+			resolved, viaHelper := false, false
 			for _, st := range cs.clause.Body {
 				ast.Inspect(st, func(n ast.Node) bool {
 					call, ok := n.(*ast.CallExpr)
 					if !ok || len(call.Args) != 1 {
 						return true
 					}
-					// the argument is (an assertion of) rhs[k].Val
+					// the argument is (an assertion of) rhs[k].Val, or rhs[k] itself handed to a helper that takes the value out
+					whole := false
 					if kk, ok := ev.rhsVal(stripAssert(call.Args[0])); !ok || kk != k {
-						return true
+						if kk, ok := ev.rhsIndex(call.Args[0]); !ok || kk != k {
+							return true
+						}
+						whole = true
 					}
 					fo, ok := objOf(info, call.Fun).(*types.Func)
 					if !ok {
 						return true
 					}
 					sig := fo.Type().(*types.Signature)
-					if sig.Params().Len() != 1 || sig.Results().Len() != 1 || !isString(sig.Params().At(0).Type()) || !isString(sig.Results().At(0).Type()) {
+					if sig.Params().Len() != 1 || sig.Results().Len() != 1 || !isString(sig.Results().At(0).Type()) {
 						return true
 					}
-					if handlesBackslash(c, fo) {
+					if !whole && !isString(sig.Params().At(0).Type()) {
+						return true
+					}
+					// the function treats the backslash itself, or is a wrapper (of this package) around one that does
+					var treats func(f *types.Func, d int) bool
+					treats = func(f *types.Func, d int) bool {
+						if isString(f.Type().(*types.Signature).Params().At(0).Type()) && handlesBackslash(c, f) {
+							return true
+						}
+						if d == 0 || f.Pkg() != sp.Types {
+							return false
+						}
+						hd := declOfFunc(sp, f)
+						if hd == nil || hd.Body == nil {
+							return false
+						}
+						found := false
+						ast.Inspect(hd.Body, func(m ast.Node) bool {
+							if c2, ok := m.(*ast.CallExpr); ok && len(c2.Args) == 1 {
+								if f2, ok := objOf(info, c2.Fun).(*types.Func); ok && f2 != f {
+									s2 := f2.Type().(*types.Signature)
+									if s2.Params().Len() == 1 && s2.Results().Len() == 1 && isString(s2.Results().At(0).Type()) && treats(f2, d-1) {
+										found = true
+									}
+								}
+							}
+							return true
+						})
+						return found
+					}
+					if treats(fo, 2) {
 						resolved = true
 						transforms = append(transforms, fmt.Sprintf("case %d: %s", i, fo.Name()))
+					} else if fo.Pkg() == sp.Types {
+						viaHelper = true
 					}
 					return true
 				})
+			}
+			if admits && !resolved && viaHelper {
+				c.Undecided("R3.3", fmt.Sprintf("case %d (%s): the STRING lexeme is unescaped before it is used", i, cs.prod), cs.clause.Pos(), "the lexeme is handed to a function of the package that was not recognised as resolving backslashes")
+				continue
 			}
 			c.Check("R3.3", fmt.Sprintf("case %d (%s): the STRING lexeme is unescaped before it is used", i, cs.prod), cs.clause.Pos(), !admits || resolved,
 				"the scanner accepts backslash escapes inside STRING, but this action uses the lexeme verbatim: the literal \"\\\"\" denotes backslash and quote instead of one quote", "start = \"\\\"\";")
